@@ -2,3 +2,550 @@
 // SPDX-License-Identifier: Apache-2.0
 
 //! verification hook drivers: data_sender
+//!
+//! Mounted as a child of `crate::stream` (see `stream/mod.rs`) so that the `pub(super)` parts of
+//! `send_stream` are visible. Drives real `SendStream`s (DataSender + StreamFlowController) that
+//! share one real `OutgoingConnectionFlowController`, with a recording `WriteContext`.
+#![allow(dead_code, unused_imports, clippy::all)]
+
+use super::{
+    outgoing_connection_flow_controller::OutgoingConnectionFlowController,
+    send_stream::{SendStream, SendStreamState, StreamFlowControllerState},
+    stream_events::StreamEvents,
+    stream_interests::{StreamInterestProvider, StreamInterests},
+};
+use crate::{
+    contexts::{OnTransmitError, WriteContext},
+    sync::data_sender::{self, FinState},
+    transmission::{self, interest::Provider as _},
+};
+use bytes::Bytes;
+use core::time::Duration;
+use s2n_codec::{DecoderBufferMut, EncoderBuffer, EncoderValue};
+use s2n_quic_core::{
+    endpoint,
+    event::{self, IntoEvent},
+    frame::{
+        ack_elicitation::{AckElicitable, AckElicitation},
+        FrameMut, FrameTrait, MaxData, MaxStreamData, StopSending,
+    },
+    packet::number::{PacketNumber, PacketNumberRange, PacketNumberSpace},
+    stream::{ops, StreamId},
+    time::Timestamp,
+    varint::VarInt,
+};
+
+/// frame kinds reported by the recording context
+pub const K_STREAM: u8 = 1;
+pub const K_RESET_STREAM: u8 = 2;
+pub const K_STREAM_DATA_BLOCKED: u8 = 3;
+pub const K_DATA_BLOCKED: u8 = 4;
+pub const K_STREAMS_BLOCKED: u8 = 5;
+pub const K_MAX_STREAMS: u8 = 6;
+pub const K_OTHER: u8 = 9;
+
+/// One frame as it was handed to the `WriteContext`, re-decoded from its wire encoding
+#[derive(Clone, Debug)]
+pub struct Recorded {
+    pub kind: u8,
+    /// stream id (STREAM, RESET_STREAM, STREAM_DATA_BLOCKED), stream type for STREAMS_BLOCKED
+    pub stream_id: u64,
+    /// offset (STREAM), final size (RESET_STREAM), limit (*_BLOCKED, MAX_STREAMS)
+    pub value: u64,
+    /// application error code (RESET_STREAM)
+    pub code: u64,
+    pub fin: bool,
+    pub data: Vec<u8>,
+    pub packet_number: u64,
+    /// encoded size of the frame
+    pub wire_len: usize,
+    /// tag byte of the frame
+    pub tag: u8,
+}
+
+pub fn pn(n: u64) -> PacketNumber {
+    PacketNumberSpace::ApplicationData.new_packet_number(VarInt::new(n).expect("pn"))
+}
+
+pub fn constraint_of(c: u64) -> transmission::Constraint {
+    match c % 4 {
+        0 => transmission::Constraint::None,
+        1 => transmission::Constraint::CongestionLimited,
+        2 => transmission::Constraint::RetransmissionOnly,
+        _ => transmission::Constraint::AmplificationLimited,
+    }
+}
+
+pub fn mode_of(m: u64) -> transmission::Mode {
+    match m % 4 {
+        0 => transmission::Mode::Normal,
+        1 => transmission::Mode::LossRecoveryProbing,
+        2 => transmission::Mode::MtuProbing,
+        _ => transmission::Mode::PathValidationOnly,
+    }
+}
+
+/// A `WriteContext` for exactly one packet: fixed payload capacity, constraint, mode and packet
+/// number; every written frame is encoded, decoded again and recorded.
+pub struct Recorder {
+    pub capacity: usize,
+    pub remaining: usize,
+    pub constraint: transmission::Constraint,
+    pub mode: transmission::Mode,
+    pub packet_number: PacketNumber,
+    pub endpoint: endpoint::Type,
+    pub ack_elicitation: AckElicitation,
+    pub frames: Vec<Recorded>,
+    /// frames written in breach of the constraint/mode (the production context debug-asserts these)
+    pub constraint_breaches: u32,
+}
+
+impl Recorder {
+    pub fn new(
+        capacity: usize,
+        constraint: transmission::Constraint,
+        mode: transmission::Mode,
+        packet_number: u64,
+        endpoint: endpoint::Type,
+    ) -> Self {
+        Self {
+            capacity,
+            remaining: capacity,
+            constraint,
+            mode,
+            packet_number: pn(packet_number),
+            endpoint,
+            ack_elicitation: Default::default(),
+            frames: vec![],
+            constraint_breaches: 0,
+        }
+    }
+
+    fn record<Frame: EncoderValue + FrameTrait>(&mut self, frame: &Frame) {
+        // same checks as transmission::context::Context::check_frame_constraint, counted not asserted
+        if self.mode == transmission::Mode::PathValidationOnly
+            && !frame.path_validation().is_probing()
+        {
+            self.constraint_breaches += 1;
+        }
+        match self.constraint {
+            transmission::Constraint::AmplificationLimited => self.constraint_breaches += 1,
+            transmission::Constraint::CongestionLimited => {
+                if frame.is_congestion_controlled() {
+                    self.constraint_breaches += 1;
+                }
+            }
+            _ => {}
+        }
+
+        let size = frame.encoding_size();
+        assert!(size <= self.remaining, "frame exceeds the remaining capacity");
+        let mut buf = vec![0u8; size];
+        {
+            let mut enc = EncoderBuffer::new(&mut buf[..]);
+            frame.encode(&mut enc);
+        }
+        self.remaining -= size;
+        self.ack_elicitation |= frame.ack_elicitation();
+
+        let tag = buf[0];
+        let packet_number = self.packet_number.as_u64();
+        let decoder = DecoderBufferMut::new(&mut buf[..]);
+        let (frame, rest) = decoder
+            .decode::<FrameMut>()
+            .expect("written frame must decode");
+        assert!(rest.is_empty(), "one frame per write");
+        let mut rec = Recorded {
+            kind: K_OTHER,
+            stream_id: 0,
+            value: 0,
+            code: 0,
+            fin: false,
+            data: vec![],
+            packet_number,
+            wire_len: size,
+            tag,
+        };
+        match frame {
+            FrameMut::Stream(f) => {
+                rec.kind = K_STREAM;
+                rec.stream_id = f.stream_id.as_u64();
+                rec.value = f.offset.as_u64();
+                rec.fin = f.is_fin;
+                rec.data = f.data.as_less_safe_slice().to_vec();
+            }
+            FrameMut::ResetStream(f) => {
+                rec.kind = K_RESET_STREAM;
+                rec.stream_id = f.stream_id.as_u64();
+                rec.value = f.final_size.as_u64();
+                rec.code = f.application_error_code.as_u64();
+            }
+            FrameMut::StreamDataBlocked(f) => {
+                rec.kind = K_STREAM_DATA_BLOCKED;
+                rec.stream_id = f.stream_id.as_u64();
+                rec.value = f.stream_data_limit.as_u64();
+            }
+            FrameMut::DataBlocked(f) => {
+                rec.kind = K_DATA_BLOCKED;
+                rec.value = f.data_limit.as_u64();
+            }
+            FrameMut::StreamsBlocked(f) => {
+                rec.kind = K_STREAMS_BLOCKED;
+                rec.stream_id = match f.stream_type {
+                    s2n_quic_core::stream::StreamType::Bidirectional => 0,
+                    s2n_quic_core::stream::StreamType::Unidirectional => 1,
+                };
+                rec.value = f.stream_limit.as_u64();
+            }
+            FrameMut::MaxStreams(f) => {
+                rec.kind = K_MAX_STREAMS;
+                rec.stream_id = match f.stream_type {
+                    s2n_quic_core::stream::StreamType::Bidirectional => 0,
+                    s2n_quic_core::stream::StreamType::Unidirectional => 1,
+                };
+                rec.value = f.maximum_streams.as_u64();
+            }
+            _ => {}
+        }
+        self.frames.push(rec);
+    }
+}
+
+impl WriteContext for Recorder {
+    fn current_time(&self) -> Timestamp {
+        unsafe { Timestamp::from_duration(Duration::from_secs(1)) }
+    }
+
+    fn transmission_constraint(&self) -> transmission::Constraint {
+        self.constraint
+    }
+
+    fn transmission_mode(&self) -> transmission::Mode {
+        self.mode
+    }
+
+    fn remaining_capacity(&self) -> usize {
+        self.remaining
+    }
+
+    fn write_frame<Frame>(&mut self, frame: &Frame) -> Option<PacketNumber>
+    where
+        Frame: EncoderValue + FrameTrait,
+        for<'frame> &'frame Frame: IntoEvent<event::builder::Frame>,
+    {
+        self.write_frame_forced(frame)
+    }
+
+    fn write_fitted_frame<Frame>(&mut self, frame: &Frame) -> PacketNumber
+    where
+        Frame: EncoderValue + FrameTrait,
+        for<'frame> &'frame Frame: IntoEvent<event::builder::Frame>,
+    {
+        self.record(frame);
+        self.packet_number
+    }
+
+    fn write_frame_forced<Frame>(&mut self, frame: &Frame) -> Option<PacketNumber>
+    where
+        Frame: EncoderValue + FrameTrait,
+        for<'frame> &'frame Frame: IntoEvent<event::builder::Frame>,
+    {
+        if frame.encoding_size() > self.remaining {
+            return None;
+        }
+        self.record(frame);
+        Some(self.packet_number)
+    }
+
+    fn ack_elicitation(&self) -> AckElicitation {
+        self.ack_elicitation
+    }
+
+    fn packet_number(&self) -> PacketNumber {
+        self.packet_number
+    }
+
+    fn local_endpoint_type(&self) -> endpoint::Type {
+        self.endpoint
+    }
+
+    fn header_len(&self) -> usize {
+        0
+    }
+
+    fn tag_len(&self) -> usize {
+        0
+    }
+}
+
+fn interest_code(i: transmission::Interest) -> u8 {
+    match i {
+        transmission::Interest::None => 0,
+        transmission::Interest::NewData => 1,
+        transmission::Interest::LostData => 2,
+        transmission::Interest::Forced => 3,
+    }
+}
+
+/// observable state of one send stream
+#[derive(Clone, Copy, Debug, Default)]
+pub struct StreamObs {
+    /// 0 Sending, 1 ResetSent, 2 ResetAcknowledged
+    pub send_state: u8,
+    /// 0 Sending, 1 Finishing(Pending), 2 Finishing(InFlight), 3 Finishing(Lost),
+    /// 4 Finishing(Acknowledged), 5 Finished, 6 Cancelled
+    pub sender_state: u8,
+    /// 0 Ready, 1 BlockedOnStreamWindow, 2 BlockedOnConnectionWindow, 3 Finished
+    pub flow_state: u8,
+    pub acquired: u64,
+    pub total_enqueued: u64,
+    /// transmission interest of the whole stream (as the stream container sees it)
+    pub interest: u8,
+    /// transmission interest of the DataSender alone
+    pub sender_interest: u8,
+    pub wants_stream_credit: bool,
+    pub wants_connection_credit: bool,
+    pub retained: bool,
+    pub delivery_notifications: bool,
+}
+
+/// Several real send streams sharing one real connection flow controller
+pub struct Conn {
+    pub flow: OutgoingConnectionFlowController,
+    pub streams: Vec<(StreamId, SendStream)>,
+    pub next_packet_number: u64,
+    pub endpoint: endpoint::Type,
+    pub constraint_breaches: u32,
+}
+
+impl Conn {
+    pub fn new(initial_max_data: u64) -> Self {
+        Self {
+            flow: OutgoingConnectionFlowController::new(VarInt::new(initial_max_data).unwrap()),
+            streams: vec![],
+            next_packet_number: 0,
+            endpoint: endpoint::Type::Client,
+            constraint_breaches: 0,
+        }
+    }
+
+    pub fn add_stream(&mut self, stream_id: u64, initial_window: u64, max_buffer: u32) -> usize {
+        let s = SendStream::new(
+            self.flow.clone(),
+            false,
+            VarInt::new(initial_window).unwrap(),
+            max_buffer,
+        );
+        self.streams
+            .push((StreamId::from_varint(VarInt::new(stream_id).unwrap()), s));
+        self.streams.len() - 1
+    }
+
+    /// application write; returns the number of bytes accepted, or -1 for an error
+    pub fn push(&mut self, k: usize, data: Vec<u8>) -> i64 {
+        let mut chunks = [Bytes::from(data)];
+        let mut req = ops::tx::Request::default();
+        req.chunks = Some(&mut chunks[..]);
+        match self.streams[k].1.poll_request(&mut req, None) {
+            Ok(resp) => resp.bytes.consumed as i64,
+            Err(_) => -1,
+        }
+    }
+
+    /// application finish; 0 ok, -1 error
+    pub fn finish(&mut self, k: usize) -> i64 {
+        let mut req = ops::tx::Request::default();
+        req.finish = true;
+        match self.streams[k].1.poll_request(&mut req, None) {
+            Ok(_) => 0,
+            Err(_) => -1,
+        }
+    }
+
+    /// application reset
+    pub fn reset(&mut self, k: usize, code: u64) -> i64 {
+        let mut req = ops::tx::Request::default();
+        req.reset = Some(VarInt::new(code).unwrap().into());
+        match self.streams[k].1.poll_request(&mut req, None) {
+            Ok(_) => 0,
+            Err(_) => -1,
+        }
+    }
+
+    /// STOP_SENDING from the peer
+    pub fn stop_sending(&mut self, k: usize, code: u64) {
+        let (id, s) = &mut self.streams[k];
+        let frame = StopSending {
+            stream_id: (*id).into(),
+            application_error_code: VarInt::new(code).unwrap(),
+        };
+        let mut events = StreamEvents::new();
+        let _ = s.on_stop_sending(&frame, &mut events);
+        events.wake_all();
+    }
+
+    /// MAX_STREAM_DATA from the peer
+    pub fn max_stream_data(&mut self, k: usize, v: u64) {
+        let (id, s) = &mut self.streams[k];
+        let frame = MaxStreamData {
+            stream_id: (*id).into(),
+            maximum_stream_data: VarInt::new(v).unwrap(),
+        };
+        let mut events = StreamEvents::new();
+        let _ = s.on_max_stream_data(&frame, &mut events);
+        events.wake_all();
+    }
+
+    /// MAX_DATA from the peer, followed by what the stream manager does: streams waiting for
+    /// connection credit are offered the new window (here: in index order) until it is used up
+    pub fn max_data(&mut self, v: u64) {
+        self.flow.on_max_data(MaxData {
+            maximum_data: VarInt::new(v).unwrap(),
+        });
+        if self.flow.available_window() == VarInt::from_u8(0) {
+            return;
+        }
+        for (_, s) in self.streams.iter_mut() {
+            if !s.get_stream_interests().connection_flow_control_credits {
+                continue;
+            }
+            s.on_connection_window_available();
+            if self.flow.available_window() == VarInt::from_u8(0) {
+                break;
+            }
+        }
+    }
+
+    /// One packet. `target` = Some(k): only stream k is asked; None: all streams in index order,
+    /// stopping at the first error (as the stream manager does). The connection flow controller
+    /// (DATA_BLOCKED) is asked first. The gate of `transmission::application::Normal::on_transmit`
+    /// is applied: streams are reached only in Normal / LossRecoveryProbing mode and only when
+    /// the constraint allows transmission or retransmission.
+    pub fn transmit(
+        &mut self,
+        target: Option<usize>,
+        capacity: usize,
+        constraint: transmission::Constraint,
+        mode: transmission::Mode,
+    ) -> Vec<Recorded> {
+        let mut ctx = Recorder::new(
+            capacity,
+            constraint,
+            mode,
+            self.next_packet_number,
+            self.endpoint,
+        );
+        let reachable = matches!(
+            mode,
+            transmission::Mode::Normal | transmission::Mode::LossRecoveryProbing
+        ) && (constraint.can_transmit() || constraint.can_retransmit());
+        if reachable {
+            let mut flow = self.flow.clone();
+            if flow.on_transmit(&mut ctx).is_ok() {
+                match target {
+                    Some(k) => {
+                        let (id, s) = &mut self.streams[k];
+                        let _ = s.on_transmit(*id, &mut ctx);
+                    }
+                    None => {
+                        for (id, s) in self.streams.iter_mut() {
+                            if s.on_transmit(*id, &mut ctx).is_err() {
+                                break;
+                            }
+                        }
+                    }
+                }
+            }
+        }
+        self.constraint_breaches += ctx.constraint_breaches;
+        if !ctx.frames.is_empty() {
+            self.next_packet_number += 1;
+        }
+        ctx.frames
+    }
+
+    /// Direct call of `SendStream::on_transmit` without the gate (any constraint / mode)
+    pub fn transmit_ungated(
+        &mut self,
+        k: usize,
+        capacity: usize,
+        constraint: transmission::Constraint,
+        mode: transmission::Mode,
+    ) -> (Vec<Recorded>, u32) {
+        let mut ctx = Recorder::new(
+            capacity,
+            constraint,
+            mode,
+            self.next_packet_number,
+            self.endpoint,
+        );
+        let (id, s) = &mut self.streams[k];
+        let _ = s.on_transmit(*id, &mut ctx);
+        if !ctx.frames.is_empty() {
+            self.next_packet_number += 1;
+        }
+        (ctx.frames, ctx.constraint_breaches)
+    }
+
+    pub fn ack(&mut self, lo: u64, hi: u64) {
+        let range = PacketNumberRange::new(pn(lo), pn(hi));
+        self.flow.on_packet_ack(&range);
+        for (_, s) in self.streams.iter_mut() {
+            let mut events = StreamEvents::new();
+            s.on_packet_ack(&range, &mut events);
+            events.wake_all();
+        }
+    }
+
+    pub fn loss(&mut self, lo: u64, hi: u64) {
+        let range = PacketNumberRange::new(pn(lo), pn(hi));
+        self.flow.on_packet_loss(&range);
+        for (_, s) in self.streams.iter_mut() {
+            s.on_packet_loss(&range);
+        }
+    }
+
+    pub fn conn_total(&self) -> u64 {
+        self.flow.total_window().as_u64()
+    }
+
+    pub fn conn_available(&self) -> u64 {
+        self.flow.available_window().as_u64()
+    }
+
+    pub fn obs(&self, k: usize) -> StreamObs {
+        let s = &self.streams[k].1;
+        let interests = s.get_stream_interests();
+        let fc = s.data_sender.flow_controller();
+        StreamObs {
+            send_state: match s.state {
+                SendStreamState::Sending => 0,
+                SendStreamState::ResetSent(_) => 1,
+                SendStreamState::ResetAcknowledged(_) => 2,
+            },
+            sender_state: match s.data_sender.state() {
+                data_sender::State::Sending => 0,
+                data_sender::State::Finishing(FinState::Pending) => 1,
+                data_sender::State::Finishing(FinState::InFlight(_)) => 2,
+                data_sender::State::Finishing(FinState::Lost) => 3,
+                data_sender::State::Finishing(FinState::Acknowledged) => 4,
+                data_sender::State::Finished => 5,
+                data_sender::State::Cancelled(_) => 6,
+            },
+            flow_state: match fc.state() {
+                StreamFlowControllerState::Ready => 0,
+                StreamFlowControllerState::BlockedOnStreamWindow => 1,
+                StreamFlowControllerState::BlockedOnConnectionWindow => 2,
+                StreamFlowControllerState::Finished => 3,
+            },
+            acquired: fc.acquired_connection_flow_controller_window().as_u64(),
+            total_enqueued: s.data_sender.total_enqueued_len().as_u64(),
+            interest: interest_code(interests.transmission),
+            sender_interest: interest_code(s.data_sender.get_transmission_interest()),
+            wants_stream_credit: interests.stream_flow_control_credits,
+            wants_connection_credit: interests.connection_flow_control_credits,
+            retained: interests.retained,
+            delivery_notifications: interests.delivery_notifications,
+        }
+    }
+}
